@@ -77,7 +77,7 @@ pub fn cause_op2(g: &mut G, id: Id, k: KindTag) -> Option<Op> {
 
 pub fn adapter_op(g: &mut G) -> Option<Op> {
     let have = !g.adapters.is_empty();
-    let r = g.rng.below(if have { 14 } else { 2 });
+    let r = g.rng.below(if have { 15 } else { 2 });
     match r {
         0 | 1 => {
             let id = g.fresh();
@@ -113,6 +113,7 @@ pub fn adapter_op(g: &mut G) -> Option<Op> {
         6..=8 => Some(Op::AdapterPeerWrite(*g.rng.pick(&g.adapters.clone()), *g.rng.pick(&[1u32, 5, 64, 1000, 6000, 30000]))),
         9 | 10 => Some(Op::AdapterPeerRead(*g.rng.pick(&g.adapters.clone()), *g.rng.pick(&[1u32, 64, 4096, 70000]))),
         11 => Some(Op::AdapterPeerClose(*g.rng.pick(&g.adapters.clone()))),
+        14 => Some(Op::AdapterPeerLastWords(*g.rng.pick(&g.adapters.clone()), *g.rng.pick(&[1u32, 5, 64, 1000]))),
         12 => Some(Op::AdapterIntoInner(*g.rng.pick(&g.adapters.clone()))),
         _ => Some(Op::AdapterDrop(*g.rng.pick(&g.adapters.clone()))),
     }
